@@ -360,6 +360,11 @@ class SFTPFile(BufferedFile):
         self.sftp._log(
             DEBUG, "truncate({}, {!r})".format(hexlify(self.handle), size)
         )
+        # like a local file: buffered writes reach the file before it is
+        # resized, and read-ahead taken from the old contents is dropped
+        self.flush()
+        self._rbuffer = bytes()
+        self._realpos = self._pos
         attr = SFTPAttributes()
         attr.st_size = size
         self.sftp._request(CMD_FSETSTAT, self.handle, attr)
